@@ -1,6 +1,7 @@
 import abc
 import asyncio
 import collections
+import errno
 import functools
 import io
 import operator
@@ -788,7 +789,7 @@ class MemoryPathIO(AbstractPathIO):
             node = self.get_node(path)
             if node is None:
                 parent = self.get_node(path.parent)
-                if parent is None or parent.type != "dir":
+                if mode == "r+b" or parent is None or parent.type != "dir":
                     raise FileNotFoundError
                 new_node = Node("file", path.name, content=io.BytesIO())
                 parent.content.append(new_node)
@@ -831,12 +832,18 @@ class MemoryPathIO(AbstractPathIO):
 
     @universal_exception
     async def rename(self, source, destination):
+        snode = self.get_node(source)
+        if snode is None:
+            raise FileNotFoundError
         if source != destination:
             sparent = self.get_node(source.parent)
             dparent = self.get_node(destination.parent)
-            snode = self.get_node(source)
-            if None in (snode, dparent):
+            if dparent is None:
                 raise FileNotFoundError
+            if dparent.type != "dir":
+                raise NotADirectoryError
+            if source in destination.parents:
+                raise OSError(errno.EINVAL, "can not move a directory into itself")
             for i, node in enumerate(sparent.content):
                 if node.name == source.name:
                     sparent.content.pop(i)
